@@ -72,6 +72,8 @@ class Ext(cpp2coq.Tr):
         # overloads: the iterator-pair overload of f is f/iter, the others f/<number of parameters>
         self.methods = {}
         for name, bodies in methods.items():
+            if name.startswith("__"):
+                continue
             if len(bodies) == 1:
                 self.methods[name] = bodies
                 continue
